@@ -68,6 +68,9 @@ pub struct E1<'c> {
     pub restored_ts_stale: bool,
     /// references returned by q_ref that are held until the next mutable borrow (address, copy)
     pub held: Vec<(usize, usize, Vec<u32>)>,
+    /// salsa keys of function memos whose last execution asked for q_spec(..) (C10 diagnosis)
+    pub spec_readers: std::collections::BTreeSet<(u32, u64)>,
+    pub spec_reader_defect_seen: bool,
 }
 
 pub fn expected_obs(ev: &mut Eval, prog: &Program, n: usize, arg: u32, deep: bool) -> Result<Obs, Abort> {
@@ -145,7 +148,7 @@ impl<'c> E1<'c> {
         fault::MASK.store(case.fault_mask, SeqCst);
         let db = SimDatabase::new(&case.prog, &world);
         let oracles = crate::oracles::for_case(case);
-        E1 { case, db: Some(db), world, out: RunOut::default(), step: 0, never: Default::default(), oracles, queries: 0, cycle_panicked_in_rev: false, fb_defect_seen: false, injected_now: false, poisoned_now: false, injected_in_rev: false, last_fault_cb: None, stop_run: false, restored_ts_stale: false, held: vec![] }
+        E1 { case, db: Some(db), world, out: RunOut::default(), step: 0, never: Default::default(), oracles, queries: 0, cycle_panicked_in_rev: false, fb_defect_seen: false, injected_now: false, poisoned_now: false, injected_in_rev: false, last_fault_cb: None, stop_run: false, restored_ts_stale: false, held: vec![], spec_readers: Default::default(), spec_reader_defect_seen: false }
     }
 
     fn db(&self) -> &SimDatabase {
@@ -163,9 +166,40 @@ impl<'c> E1<'c> {
         self.out.digest = h;
     }
 
+    /// which function memos read q_spec(..) in their latest execution
+    fn track_spec_readers(&mut self, evs: &[Ev]) {
+        let Some(spec_node) = self.case.prog.node_of_kind(Kind::Spec) else { return };
+        let mut stack: Vec<(u32, u64)> = vec![];
+        let mut pending: Option<(u32, u64)> = None;
+        for e in evs {
+            match e {
+                Ev::Salsa { k: SK::WillExecute, ing, id, .. } => pending = Some((*ing, *id)),
+                Ev::Exec { .. } => {
+                    let k = pending.take().unwrap_or((u32::MAX, 0));
+                    self.spec_readers.remove(&k);
+                    stack.push(k);
+                }
+                Ev::ExecEnd { .. } => {
+                    stack.pop();
+                }
+                Ev::RdOnTs { node, .. } if *node == spec_node => {
+                    if let Some(k) = stack.last() {
+                        self.spec_readers.insert(*k);
+                    }
+                }
+                // a stale reader memo stays in place and can surface in any later request
+                Ev::Salsa { k: SK::DidValidateMemo, ing, id, .. } if self.spec_readers.contains(&(*ing, *id)) && self.out.revisions > 0 => {
+                    self.spec_reader_defect_seen = true;
+                }
+                _ => {}
+            }
+        }
+    }
+
     /// Drain the event log, feed the oracles, fold into the digest.
     fn drain(&mut self, what: &crate::oracles::StepInfo) {
         let evs = self.db().shared.take_log();
+        self.track_spec_readers(&evs);
         self.digest_events(&evs);
         if std::env::var("VERIF_TRACE").is_ok() {
             eprintln!("--- step {} {:?}", self.step, self.case.hist.get(self.step));
@@ -277,6 +311,19 @@ impl<'c> E1<'c> {
                         // diagnosis of the recorded C13 finding: a member of a fallback cycle
                         // returned its body value (gets its own violation class, so that any
                         // other mismatch is still reported as value_mismatch)
+                        // recorded finding (C10): a memo that read q_spec(E) is validated (reused) although
+                        // q_spec(E) switched between "specified" and "computed" since it ran
+                        let reader_reused = {
+                            let log = self.db().shared.log.lock().unwrap();
+                            log.iter().any(|ev| matches!(ev, Ev::Salsa { k: SK::DidValidateMemo, ing, id, .. } if self.spec_readers.contains(&(*ing, *id))))
+                        };
+                        if prog.node_of_kind(Kind::Spec).is_some() && self.out.revisions > 0 && (reader_reused || self.spec_reader_defect_seen) {
+                            self.spec_reader_defect_seen = true;
+                            self.out.viol("specify_switch_not_seen_by_validated_reader", step, format!("node {n}: expected {e:?} got {g:?}"));
+                            info.ok = true;
+                            self.drain(&info);
+                            return;
+                        }
                         let restored = self.out.stats.get("restores").copied().unwrap_or(0) > 0;
                         // direct evidence in the probe log: a struct was (re-)created with one value
                         // of a tracked field and read back with another
